@@ -10,6 +10,8 @@ import CB.Lemmas.GenBitsSafeGcd
 import CB.Lemmas.GenSafeGcdJump
 import CB.Lemmas.GenSafeGcdLimbs
 import CB.Lemmas.GenSafeGcdDivsteps
+import CB.Lemmas.GenBitsSafeGcdConv
+import CB.Lemmas.GenSafeGcdInverter
 namespace CB.P10G
 open CB CB.SafeGcd
 
@@ -390,6 +392,169 @@ example :
       Gen.SafeGcdLimbs.UnsatInt.neg 3 [9#64, 0#64, 0#64] ∧
     Gen.SafeGcdLimbs.fg 3 [0#64, 7#64, 0#64] [0#64, 12#64, 0#64] ((1#64, 0#64), (-1#64, 1#64)) =
       ([7#64, 0#64, 0#64], [5#64, 0#64, 0#64]) := by
+  decide +kernel
+
+end CB.P10G
+
+/-! ## T10.G (conversion) — the SOURCE of `UnsatInt::from_uint` / `UnsatInt::to_uint` (the macro `impl_limb_convert!` expanded)
+
+`Gen.SafeGcdLimbs.Convert.from_uint LIMBS SAT_LIMBS input` / `.to_uint LIMBS SAT_LIMBS self` are the Lean translations of what
+src/modular/safegcd.rs and src/modular/safegcd/macros.rs say NOW: tools/translate.py substitutes the macro's parameters into its
+body (`$input` → `input.as_words()`, `$input_bits` → `Word::BITS as usize`, `$output_bits` → `62`, ..) and translates the result
+— the `while bits < total` loop over two bit cursors with the data-dependent step `min(64 - i, 62 - o)` (fuel `total`), then the
+count-down masking loop.  The guard `if LIMBS != safegcd_nlimbs!(SAT_LIMBS * Limb::BITS) { panic!(..) }` is a precondition. -/
+namespace CB.P10G
+open CB CB.SafeGcd
+open CB.GenChains (nats)
+open CB.GenSafeGcdLimbs (WFw)
+
+/-- `UnsatInt::from_uint` of the source IS the model's `fromUint` on EVERY input; when the unsaturated limbs can hold the
+    input (`64·len ≤ 62·LIMBS`) it returns `LIMBS` words, each `< 2^62`, of the SAME value; the source's own limb count
+    `LIMBS = safegcd_nlimbs!(64·SAT_LIMBS)` (the case in which it does not panic) satisfies that -/
+theorem src_unsat_from_uint_exact (L S : Nat) (x : List (BitVec 64)) :
+    nats (Gen.SafeGcdLimbs.Convert.from_uint L S x) = fromUint (nats x) L ∧
+    (64 * x.length ≤ 62 * L →
+      (Gen.SafeGcdLimbs.Convert.from_uint L S x).length = L ∧ WFw (Gen.SafeGcdLimbs.Convert.from_uint L S x) ∧
+      uvalN (nats (Gen.SafeGcdLimbs.Convert.from_uint L S x)) = CB.val (nats x)) ∧
+    (x.length = S → L = nlimbsFor (S * 64) → 64 * x.length ≤ 62 * L) := by
+  have e := GenBits.fromUint_bridge L S x
+  refine ⟨e, fun hfit => ?_, fun hS hL => ?_⟩
+  · obtain ⟨h1, h2, h3⟩ := fromUint_spec (nats x) L (CB.GenChains.nats_WF x) (by rw [CB.GenChains.nats_length]; exact hfit)
+    rw [← e] at h1 h2 h3
+    exact ⟨by rw [CB.GenChains.nats_length] at h1; exact h1, (GenSafeGcdLimbs.WFw_iff _).mpr h2, h3⟩
+  · have := nlimbs_geometry (S * 64)
+    rw [hS, hL]; omega
+
+/-- `UnsatInt::to_uint` of the source IS the model's `toUint` on EVERY input; for words `< 2^62` and `64·SAT_LIMBS ≤ 62·len`
+    it returns `SAT_LIMBS` words whose value is the limb value modulo `2^(64·SAT_LIMBS)` -/
+theorem src_unsat_to_uint_exact (L S : Nat) (u : List (BitVec 64)) :
+    nats (Gen.SafeGcdLimbs.Convert.to_uint L S u) = toUint (nats u) S ∧
+    (WFw u → 64 * S ≤ 62 * u.length →
+      (Gen.SafeGcdLimbs.Convert.to_uint L S u).length = S ∧
+      CB.val (nats (Gen.SafeGcdLimbs.Convert.to_uint L S u)) = uvalN (nats u) % 2 ^ (64 * S)) := by
+  have e := GenBits.toUint_bridge L S u
+  refine ⟨e, fun wu hfit => ?_⟩
+  obtain ⟨h1, _, h3⟩ := toUint_spec (nats u) S ((GenSafeGcdLimbs.WFw_iff u).mp wu) (by rw [CB.GenChains.nats_length]; exact hfit)
+  rw [← e] at h1 h3
+  exact ⟨by rw [CB.GenChains.nats_length] at h1; exact h1, h3⟩
+
+/-- T10.4(a) for the SOURCE: converting to 62-bit words and back returns the input words -/
+theorem src_unsat_convert_roundtrip (L S : Nat) (x : List (BitVec 64)) (hfit : 64 * x.length ≤ 62 * L) :
+    Gen.SafeGcdLimbs.Convert.to_uint L x.length (Gen.SafeGcdLimbs.Convert.from_uint L S x) = x := by
+  apply List.map_injective_iff.mpr (fun a b h => BitVec.eq_of_toNat_eq h)
+  show nats _ = nats x
+  rw [(src_unsat_to_uint_exact L x.length _).1, (src_unsat_from_uint_exact L S x).1]
+  have := toUint_fromUint (nats x) L (CB.GenChains.nats_WF x) (by rw [CB.GenChains.nats_length]; exact hfit)
+  rwa [CB.GenChains.nats_length] at this
+
+/-- the two conversions collected: the hand-written model of `impl_limb_convert!` is the translated source -/
+theorem safegcd_convert_is_translated_source :
+    (∀ (L S : Nat) (x : List (BitVec 64)), nats (Gen.SafeGcdLimbs.Convert.from_uint L S x) = fromUint (nats x) L) ∧
+    (∀ (L S : Nat) (u : List (BitVec 64)), nats (Gen.SafeGcdLimbs.Convert.to_uint L S u) = toUint (nats u) S) :=
+  ⟨GenBits.fromUint_bridge, GenBits.toUint_bridge⟩
+
+/-- non-vacuity: the translated source on two 64-bit words / three 62-bit words — `2^64 - 1 + 5·2^64` -/
+example :
+    Gen.SafeGcdLimbs.Convert.from_uint 3 2 [0xFFFFFFFFFFFFFFFF#64, 5#64] = [0x3FFFFFFFFFFFFFFF#64, 23#64, 0#64] ∧
+    Gen.SafeGcdLimbs.Convert.to_uint 3 2 [0x3FFFFFFFFFFFFFFF#64, 23#64, 0#64] = [0xFFFFFFFFFFFFFFFF#64, 5#64] := by
+  decide +kernel
+
+end CB.P10G
+
+/-! ## T10.G (inverter) — the SOURCE of `SafeGcdInverter::{new, inv}`
+
+`Gen.SafeGcdLimbs.InverterApi.new UNSAT_LIMBS SAT_LIMBS modulus adjuster` is the tuple `(modulus, adjuster, inverse)` of the
+struct's fields; `InverterApi.inv UNSAT_LIMBS SAT_LIMBS self value` the pair (value, `is_some` mask) of the `ConstCtOption`.
+`UNSAT_LIMBS = safegcd_nlimbs!(64·SAT_LIMBS)` is the one limb count for which `from_uint` / `to_uint` do not panic; the
+bound `UNSAT_LIMBS ≤ 1413748` (`SAT_LIMBS ≤ 1369567`, i.e. moduli up to 87 million bits) is where the `u32` bit counts of
+`divsteps` do not wrap (G18's `src_divsteps_exact`). -/
+namespace CB.P10G
+open CB CB.SafeGcd
+open CB.GenChains (nats)
+
+/-- `SafeGcdInverter::new` of the source is the model's `Inverter.new` (all limb counts, all inputs) -/
+theorem src_inverter_new_exact (S : Nat) (mw aw : List (BitVec 64)) :
+    (⟨nats (Gen.SafeGcdLimbs.InverterApi.new (nlimbsFor (S * 64)) S mw aw).1,
+      nats (Gen.SafeGcdLimbs.InverterApi.new (nlimbsFor (S * 64)) S mw aw).2.1,
+      (Gen.SafeGcdLimbs.InverterApi.new (nlimbsFor (S * 64)) S mw aw).2.2.toInt⟩ : Inverter) = Inverter.new S (nats mw) (nats aw) :=
+  GenSafeGcdInverter.new_bridge _ S mw aw
+
+/-- `SafeGcdInverter::new(M, adj).inv(v)` of the source IS the model's: the returned words are the model's `value`, the
+    returned mask is `is_some` -/
+theorem src_inverter_inv_exact (sat : Nat) (hsat : 1 ≤ sat) (mw aw vw : List (BitVec 64))
+    (lm : mw.length = sat) (la : aw.length = sat) (lv : vw.length = sat)
+    (hodd : CB.val (nats mw) % 2 = 1) (hadj : CB.val (nats aw) < CB.val (nats mw)) (hL : nlimbsFor (sat * 64) ≤ 1413748) :
+    nats (Gen.SafeGcdLimbs.InverterApi.inv (nlimbsFor (sat * 64)) sat
+        (Gen.SafeGcdLimbs.InverterApi.new (nlimbsFor (sat * 64)) sat mw aw) vw).1 =
+      ((Inverter.new sat (nats mw) (nats aw)).inv sat (nats vw)).value ∧
+    (Gen.SafeGcdLimbs.InverterApi.inv (nlimbsFor (sat * 64)) sat
+        (Gen.SafeGcdLimbs.InverterApi.new (nlimbsFor (sat * 64)) sat mw aw) vw).2 =
+      GenBits.ofBool ((Inverter.new sat (nats mw) (nats aw)).inv sat (nats vw)).isSome := by
+  have hn := geometry sat
+  simp only [Inverter.new]
+  generalize nlimbsFor (sat * 64) = L at *
+  have em := GenBits.fromUint_bridge L sat mw
+  have ea := GenBits.fromUint_bridge L sat aw
+  have hml : (Gen.SafeGcdLimbs.Convert.from_uint L sat mw).length = L :=
+    ((src_unsat_from_uint_exact L sat mw).2.1 (by rw [lm]; omega)).1
+  rw [GenBits.inverter_new_eq]
+  generalize Gen.SafeGcdLimbs.Convert.from_uint L sat mw = m at *
+  generalize Gen.SafeGcdLimbs.Convert.from_uint L sat aw = a at *
+  subst hml
+  exact GenSafeGcdInverter.inv_core sat hsat (nats mw) (nats aw) (nats vw) (CB.GenChains.nats_WF _) (CB.GenChains.nats_WF _)
+    (CB.GenChains.nats_WF _) (by rw [CB.GenChains.nats_length]; exact lm) (by rw [CB.GenChains.nats_length]; exact la)
+    (by rw [CB.GenChains.nats_length]; exact lv) hodd hadj m a vw (Gen.SafeGcd.inv_mod2_62 mw) hn hL em ea rfl
+    (GenBits.inv_mod2_62_bridge mw) sat
+
+/-- T10.7 for the TRANSLATED `inv` — UNCONDITIONAL soundness (no hypothesis on the trip count / on `g`), under exactly the
+    hypotheses of `safegcd_inv_sound` (plus the `u32` range of the limb count): the mask the source returns is a proper
+    `ConstChoice`, and whenever it is truthy the words the source returns are `< M` and `value·v ≡ adjuster (mod M)` -/
+theorem src_safegcd_inv_sound (sat : Nat) (hsat : 1 ≤ sat) (mw aw vw : List (BitVec 64))
+    (lm : mw.length = sat) (la : aw.length = sat) (lv : vw.length = sat)
+    (hodd : CB.val (nats mw) % 2 = 1) (hadj : CB.val (nats aw) < CB.val (nats mw)) (hL : nlimbsFor (sat * 64) ≤ 1413748) :
+    ((Gen.SafeGcdLimbs.InverterApi.inv (nlimbsFor (sat * 64)) sat
+        (Gen.SafeGcdLimbs.InverterApi.new (nlimbsFor (sat * 64)) sat mw aw) vw).2 = 0#64 ∨
+     (Gen.SafeGcdLimbs.InverterApi.inv (nlimbsFor (sat * 64)) sat
+        (Gen.SafeGcdLimbs.InverterApi.new (nlimbsFor (sat * 64)) sat mw aw) vw).2 = ~~~0#64) ∧
+    ((Gen.SafeGcdLimbs.InverterApi.inv (nlimbsFor (sat * 64)) sat
+        (Gen.SafeGcdLimbs.InverterApi.new (nlimbsFor (sat * 64)) sat mw aw) vw).2 ≠ 0#64 →
+      CB.val (nats (Gen.SafeGcdLimbs.InverterApi.inv (nlimbsFor (sat * 64)) sat
+        (Gen.SafeGcdLimbs.InverterApi.new (nlimbsFor (sat * 64)) sat mw aw) vw).1) < CB.val (nats mw) ∧
+      CB.val (nats (Gen.SafeGcdLimbs.InverterApi.inv (nlimbsFor (sat * 64)) sat
+        (Gen.SafeGcdLimbs.InverterApi.new (nlimbsFor (sat * 64)) sat mw aw) vw).1) * CB.val (nats vw)
+        ≡ CB.val (nats aw) [MOD CB.val (nats mw)]) := by
+  obtain ⟨e1, e2⟩ := src_inverter_inv_exact sat hsat mw aw vw lm la lv hodd hadj hL
+  obtain ⟨_, s2⟩ := P10.safegcd_inv_sound sat hsat (nats mw) (nats aw) (nats vw) (CB.GenChains.nats_WF _) (CB.GenChains.nats_WF _)
+    (CB.GenChains.nats_WF _) (by rw [CB.GenChains.nats_length]; exact lm) (by rw [CB.GenChains.nats_length]; exact la)
+    (by rw [CB.GenChains.nats_length]; exact lv) hodd hadj
+  rw [e1, e2]
+  cases h : ((Inverter.new sat (nats mw) (nats aw)).inv sat (nats vw)).isSome with
+  | false => exact ⟨Or.inl (by decide), fun hne => absurd (by decide) hne⟩
+  | true => exact ⟨Or.inr (by decide), fun _ => s2 h⟩
+
+/-- the inverter collected: the hand-written model of `SafeGcdInverter::{new, inv}` is the translated source -/
+theorem safegcd_inverter_is_translated_source :
+    (∀ (S : Nat) (mw aw : List (BitVec 64)),
+      (⟨nats (Gen.SafeGcdLimbs.InverterApi.new (nlimbsFor (S * 64)) S mw aw).1,
+        nats (Gen.SafeGcdLimbs.InverterApi.new (nlimbsFor (S * 64)) S mw aw).2.1,
+        (Gen.SafeGcdLimbs.InverterApi.new (nlimbsFor (S * 64)) S mw aw).2.2.toInt⟩ : Inverter) = Inverter.new S (nats mw) (nats aw)) ∧
+    (∀ (sat : Nat), 1 ≤ sat → ∀ (mw aw vw : List (BitVec 64)), mw.length = sat → aw.length = sat → vw.length = sat →
+      CB.val (nats mw) % 2 = 1 → CB.val (nats aw) < CB.val (nats mw) → nlimbsFor (sat * 64) ≤ 1413748 →
+      nats (Gen.SafeGcdLimbs.InverterApi.inv (nlimbsFor (sat * 64)) sat
+          (Gen.SafeGcdLimbs.InverterApi.new (nlimbsFor (sat * 64)) sat mw aw) vw).1 =
+        ((Inverter.new sat (nats mw) (nats aw)).inv sat (nats vw)).value ∧
+      (Gen.SafeGcdLimbs.InverterApi.inv (nlimbsFor (sat * 64)) sat
+          (Gen.SafeGcdLimbs.InverterApi.new (nlimbsFor (sat * 64)) sat mw aw) vw).2 =
+        GenBits.ofBool ((Inverter.new sat (nats mw) (nats aw)).inv sat (nats vw)).isSome) :=
+  ⟨src_inverter_new_exact, fun sat hsat mw aw vw lm la lv hodd hadj hL =>
+    src_inverter_inv_exact sat hsat mw aw vw lm la lv hodd hadj hL⟩
+
+/-- non-vacuity: the translated source, one 64-bit limb (three 62-bit limbs): `3⁻¹ mod 7 = 5` is reported with a truthy mask,
+    `3` is not invertible modulo `9` (falsy mask), and with the adjuster `2` the result is `2·3⁻¹ = 3 (mod 7)` -/
+example :
+    Gen.SafeGcdLimbs.InverterApi.inv 3 1 (Gen.SafeGcdLimbs.InverterApi.new 3 1 [7#64] [1#64]) [3#64] = ([5#64], ~~~0#64) ∧
+    (Gen.SafeGcdLimbs.InverterApi.inv 3 1 (Gen.SafeGcdLimbs.InverterApi.new 3 1 [9#64] [1#64]) [3#64]).2 = 0#64 ∧
+    Gen.SafeGcdLimbs.InverterApi.inv 3 1 (Gen.SafeGcdLimbs.InverterApi.new 3 1 [7#64] [2#64]) [3#64] = ([3#64], ~~~0#64) := by
   decide +kernel
 
 end CB.P10G
